@@ -1296,7 +1296,8 @@ class PandasModelBase(
                 by=blocks_in.record_keys, inplace=False, ignore_index=True
             )
         # the declared columns in the declared order (blocks come in data order, a level no row carries is all missing)
-        res = res.reindex(columns=blocks_in.row_columns)
+        # (a repeated label - a cell named twice in a non-strict control table, unknown key levels - keeps its first column)
+        res = res.loc[:, ~res.columns.duplicated()].reindex(columns=blocks_in.row_columns)
         return res
 
     def rowrecs_to_blocks(
